@@ -19,4 +19,11 @@ def queries(tier):
         for blk in range(0, 1 << nq):
             for w in (0, 1):
                 qs.append(Query(f"barrier_q{nq}_blk{blk}_wait{w}", "C07/barrier.cpp", "harness_barrier", dict(P_Q=nq, P_BLK=blk, P_WAIT=w), SRC, unwind=8, cap_s=300))
+    # second use of a barrier that already released one group, built with the real constructor and calls only (no field is set by the harness)
+    for nq in range(0, 3):
+        for more in (0, 1):
+            if nq + 1 + more < 2 or 2 * (nq + 1 + more) > 6:
+                continue
+            qs.append(Query(f"barrier_second_use_q{nq}_more{more}", "C07/barrier.cpp", "harness_barrier", dict(P_Q=nq, P_BLK=0, P_WAIT=1, P_ROUND2=1, P_MORE=more), SRC,
+                            unwind=8, cap_s=300))
     return qs
